@@ -103,6 +103,21 @@ def cases():
     out.append(Case('interchange/explicit-order', LP.format(body='  !$loki loop-interchange (j, i)\n  do i=1,n\n    do j=1,m\n      c(i,j) = c(i,j) + b(i)\n    end do\n  end do'), 'k', S, interchange, 'loop-interchange'))
     out.append(Case('interchange/rect-project', LP.format(body='  !$loki loop-interchange\n  do i=1,n\n    do j=1,m\n      c(i,j) = b(i)*j\n    end do\n  end do'), 'k', S, interchange_project, 'loop-interchange'))
     out.append(Case('interchange/triangular-project', LP.format(body='  !$loki loop-interchange\n  do i=1,n\n    do j=1,i\n      c(i,min(j,m)) = c(i,min(j,m)) + 1.\n    end do\n  end do'), 'k', [{'n': 3, 'm': 3}], interchange_project, 'loop-interchange'))
+    TRI = """
+subroutine k(c)
+  integer, intent(inout) :: c(8, 8)
+  integer :: i, j
+{body}
+end subroutine k
+"""
+    tri = {'lit-outer-start-above': '  do i=3,8\n    do j=1,i\n      c(i,j) = c(i,j) + i*10 + j\n    end do\n  end do',
+           'lit-outer-stop-below': '  do i=1,4\n    do j=i,8\n      c(i,j) = c(i,j) + i - j\n    end do\n  end do',
+           'lit-implied': '  do i=1,6\n    do j=1,i\n      c(i,j) = c(i,j)*2 + 1\n    end do\n  end do',
+           'lit-offset-inner': '  do i=2,7\n    do j=i-1,i+1\n      c(i,j) = c(i,j) + 1\n    end do\n  end do',
+           'lit-rect': '  do i=2,5\n    do j=3,7\n      c(i,j) = i*j\n    end do\n  end do'}
+    for tn, body in tri.items():
+        out.append(Case(f'interchange/tri-{tn}/project', TRI.format(body='  !$loki loop-interchange\n' + body), 'k', [{}], interchange_project, 'loop-interchange'))
+    out.append(Case('interchange/tri-lit-rect/plain', TRI.format(body='  !$loki loop-interchange\n' + tri['lit-rect']), 'k', [{}], interchange, 'loop-interchange'))
     # ---- blocking
     SB = [{'n': 5, 'm': 1}, {'n': 4, 'm': 1}, {'n': 7, 'm': 1}]
     for bs in (2, 3, 4):
